@@ -57,6 +57,21 @@ def _zero_mantissa(ctx, rep):
 
 
 def check(ctx, rep):
+    # decimal conversion (to_decimal): the mantissa is shifted as a magnitude and negated afterwards -- shifting a negative
+    # number floors it, so negative values would come out one unit larger in magnitude than their positive twins;
+    # and both window limits of the working range [10^(d-1), 10^d) are taken "just under", like each other
+    tdc = ctx.fn('pcbasic/basic/values/numbers.py:Float.to_decimal')
+    nums = [a for a in own_nodes(tdc) if isinstance(a, ast.Assign) and norm(a.targets[0]) == 'num']
+    okn = len(nums) == 1 and isinstance(nums[0].value, ast.IfExp) and isinstance(nums[0].value.body, ast.UnaryOp) and isinstance(nums[0].value.body.op, ast.USub) \
+        and isinstance(nums[0].value.body.operand, ast.BinOp) and isinstance(nums[0].value.body.operand.op, ast.RShift) and norm(nums[0].value.test) == 'neg' \
+        and norm(nums[0].value.orelse) == norm(nums[0].value.body.operand)
+    rep.ob('print.sign-after-shift', 'to_decimal negates after shifting (symmetric in sign)', okn, norm(nums[0].value) if nums else 'none', ctx.where(tdc))
+    fld = ctx.flow(tdc)
+    lims = dict((norm(a.targets[0]), a.value) for a in own_nodes(tdc) if isinstance(a, ast.Assign) and norm(a.targets[0]) in ('lim_bot', 'lim_top')
+                and any(f.pol and f.text == 'digits > 0' for f in fld.facts(a)))
+    oks = set(lims) == {'lim_bot', 'lim_top'} and all(isinstance(v, ast.Call) and isinstance(v.func, ast.Attribute) and v.func.attr == '_just_under' for v in lims.values())
+    rep.ob('print.window-limits-alike', 'to_decimal: for a reduced digit count both window limits are taken just under the power of ten', oks,
+           repr(dict((k, norm(v)) for k, v in lims.items())) + ': a value equal to the upper limit keeps one digit too many', ctx.where(tdc))
     from . import c03 as _c03, _share as _sh
     _sh.share(ctx, rep, _c03, ('normalise.bring-to-range',), 'a decimal literal is converted through from_int / from_decimal, which normalise the mantissa with _bring_to_range: an all-ones or a just-below-the-top-bit mantissa must come out unchanged')
     # plain decimal notation is used only while every digit before the point is significant: from 10**digits on (exponent >= the
@@ -168,6 +183,10 @@ def variants(ctx):
         return lambda tree: f(mu.find_def(tree, fname))
 
     return [
+        mu.Variant('to-decimal-floors-negatives', 'break', 'pcbasic/basic/values/numbers.py',
+                   lambda tree: mu.replace_expr(mu.find_def(tree, 'Float.to_decimal'), mu.text_is('-(man >> 8) if neg else man >> 8'), '(-man if neg else man) >> 8'), expect='print.sign-after-shift'),
+        mu.Variant('upper-window-limit-not-just-under', 'break', 'pcbasic/basic/values/numbers.py',
+                   lambda tree: mu.replace_expr(mu.find_def(tree, 'Float.to_decimal'), mu.text_is('self.new().from_int(10 ** digits)._just_under()'), 'self.new().from_int(10 ** digits)'), expect='print.window-limits-alike'),
         mu.Variant('decimal-notation-one-digit-too-long', 'break', 'pcbasic/basic/values/numbers.py',
                    lambda tree: mu.replace_expr(mu.find_def(tree, 'Float.to_str'), mu.text_is('exp10 > self.digits - 1'), 'exp10 > self.digits'), expect='print.scientific-from-first-lost-digit'),
         mu.Variant('zero-mantissa-scaled-by-exponent', 'break', 'pcbasic/basic/values/numbers.py',
